@@ -526,7 +526,9 @@ func (r *Reader) seekLinear(tabIter *tableIter, want record) (bool, error) {
 			return false, err
 		}
 		if !ok {
-			panic("read from fresh block failed")
+			// a block without records: the writer never
+			// produces one.
+			return false, fmtError
 		}
 		if rec.key() > wantKey {
 			break
